@@ -23,7 +23,8 @@ RULE = ("datasets: plain {flat gzip, flat no-gzip, deep gzip behind the "
         "documented rewrite rule}; sharded with bit triples {0,1,2}^3 + "
         "(3,0,1) x raw/gzip (plus 6 datasets whose index and data encodings "
         "differ, 3 datasets with chunks of 0.7-2.4 MB - fault-free runs only - and 6 with 512-1024 "
-        "minishards per shard) x grids 2^3 and (3,2,1), as .shard files and "
+        "minishards per shard, 12 written by the harness's own specification-"
+        "only writer with minishard indices and data in other orders) x grids 2^3 and (3,2,1), as .shard files and "
         "split into legacy .index/.data; URL spellings {plain, trailing "
         "slash, precomputed:// prefix, https}. A state = (history prefix, "
         "answers given so far); a transition = one answered request. "
@@ -90,6 +91,15 @@ def sharded_datasets(tier):
         for legacy in (False, True):
             out.append({"kind": "sharded", "triple": [mb, sb, 0],
                         "enc": "raw", "size": [3, 2, 1], "legacy": legacy})
+    # written by another (specification-only) writer: other layouts
+    for layout in ("reversed", "interleaved", "data-first"):
+        for t in ((1, 1, 0), (2, 0, 0), (2, 1, 1)):
+            for legacy in (False, True):
+                if legacy and layout != "reversed":
+                    continue
+                out.append({"kind": "sharded", "triple": list(t),
+                            "enc": "raw", "size": [3, 2, 2],
+                            "legacy": legacy, "foreign": layout})
     # index and data encoded differently
     for t in ((1, 1, 0), (0, 0, 0), (2, 1, 1)):
         for ienc, enc in (("raw", "gzip"), ("gzip", "raw")):
@@ -121,6 +131,8 @@ def build(ds, root):
         return [(KEY, cc, bytes(se.payload(i)) * 3 if i != 4 else None)
                 for i, cc, cid in chunks]
     mult = ds.get("mult", 1)
+    if ds.get("foreign"):
+        return build_foreign(ds, d)
     cfg = {"size": ds["size"], "chunk": 1, "triple": ds["triple"],
            "index_enc": ds.get("ienc", ds["enc"]), "data_enc": ds["enc"],
            "strategy": "in memory"}
@@ -162,6 +174,44 @@ def build(ds, root):
         if k < len(out1):
             mixed.append(out1[k])
     return mixed
+
+
+def build_foreign(ds, d):
+    """a sharded dataset written by the harness's own specification-only
+    writer, with the minishard indices and the chunk data laid out in an
+    order the package's writer never produces (one scale)"""
+    from mc.oracle import morton_spec, shard_spec
+    mb, sb, pb = ds["triple"]
+    cfg = {"size": ds["size"], "chunk": 1, "triple": ds["triple"],
+           "index_enc": "raw", "data_enc": "raw", "strategy": "in memory"}
+    with open(os.path.join(d, "info"), "w") as f:
+        json.dump(se.make_info(cfg, two_scales=False), f)
+    os.makedirs(os.path.join(d, KEY))
+    chunks = se.chunk_list(ds["size"], 1)
+    grid = tuple(ds["size"])
+    shards = {}
+    for i, cc, cid in chunks:
+        if i == 4:
+            continue
+        mid = morton_spec.compressed_morton_code((cc[0], cc[2], cc[4]), grid)
+        shard, mini = morton_spec.route(mid, pb, mb, sb)
+        shards.setdefault(shard, {})[mid] = bytes(se.payload(i)) * 2
+    for shard, cmap in shards.items():
+        data = shard_spec.build_shard(
+            cmap, mb, lambda c: morton_spec.route(c, pb, mb, sb)[1],
+            ds["foreign"])
+        stem = morton_spec.shard_file_stem(shard, sb)
+        if ds["legacy"]:
+            n = 16 * 2 ** mb
+            with open(os.path.join(d, KEY, stem + ".index"), "wb") as f:
+                f.write(data[:n])
+            with open(os.path.join(d, KEY, stem + ".data"), "wb") as f:
+                f.write(data[n:])
+        else:
+            with open(os.path.join(d, KEY, stem + ".shard"), "wb") as f:
+                f.write(data)
+    return [(KEY, cc, bytes(se.payload(i)) * 2 if i != 4 else None)
+            for i, cc, cid in chunks]
 
 
 def local_reference(root, chunks):
@@ -335,6 +385,29 @@ def explore_dataset(col, ds, tier):
             return
         srv = httpsim.serve(root)
         base_case = {"dataset": ds}
+        # the local accessor itself must return what was stored (for the
+        # datasets written by the harness's own specification-only writer
+        # this is the only link between the files and the expected bytes)
+        for key, cc, want_bytes in chunks:
+            got = ref[(key, cc)]
+            if want_bytes is None:
+                # never stored: an error, or the zero-length filler entry
+                good = got[0] == "error" or got == ("ok", b"")
+            else:
+                good = got == ("ok", want_bytes)
+            if not good:
+                col.ev(1, 1, "equiv-bad")
+                col.violation(
+                    "C14/equiv/local-accessor-does-not-return-the-stored-"
+                    "bytes/" + ("foreign-writer" if ds.get("foreign")
+                                else "package-writer"),
+                    dict(base_case, url=URLS[0], deviations={},
+                         op=["chunk", key, list(cc)]),
+                    "missing" if want_bytes is None
+                    else want_bytes[:40].hex(),
+                    got[1][:40].hex() if isinstance(got[1], bytes)
+                    else got)
+                return
         # ---- 0 deviations, every URL spelling
         ref_out = None
         for url in URLS:
